@@ -69,8 +69,17 @@ type outcome struct {
 }
 
 func runWithFault(img []byte, o op, k int, mode string, failLock bool) outcome {
+	out, _ := runWithFault2(img, o, k, mode, failLock, false)
+	return out
+}
+
+// runWithFault2 optionally runs the operation a second time on the same
+// handle, with no further fault (the fault was transient): again gives the
+// outcome of that second run.
+func runWithFault2(img []byte, o op, k int, mode string, failLock, again bool) (outcome, *outcome) {
 	f := &pagers.Fault{P: pagers.NewMem(img), K: k, Mode: mode, FailRLock: failLock}
 	var out outcome
+	var second *outcome
 	func() {
 		defer func() { out.pan = recover() }()
 		d, err := sdb.VerifOpen(f, "")
@@ -80,9 +89,16 @@ func runWithFault(img []byte, o op, k int, mode string, failLock bool) outcome {
 		}
 		defer d.Close()
 		out.rows, out.err = o.run(d)
+		if again {
+			second = &outcome{}
+			func() {
+				defer func() { second.pan = recover() }()
+				second.rows, second.err = o.run(d)
+			}()
+		}
 	}()
 	out.fired, out.page, out.size = f.Fired, f.FiredPage, f.FiredSize
-	return out
+	return out, second
 }
 
 func countReads(img []byte, o op) (outcome, int) {
@@ -156,7 +172,7 @@ func enumerate(r *vt.Run, t vt.TB, spec interface{}, img []byte, ps int, ops []o
 		}
 		for k := 1; k <= n; k++ {
 			for _, mode := range modes {
-				out := runWithFault(img, o, k, mode, false)
+				out, again := runWithFault2(img, o, k, mode, false, mode != "ff")
 				if !out.fired {
 					r.Harness(t, "%s: read %d of %d not reached on a fresh handle (non-deterministic read sequence?)", o.name, k, n)
 				}
@@ -187,6 +203,24 @@ func enumerate(r *vt.Run, t vt.TB, spec interface{}, img []byte, ps int, ops []o
 				if !isPrefix(out.rows, base.rows) {
 					r.Violation(t, spec, "fault:not-a-prefix", "%s: error %v, but the %d delivered rows are not a prefix of the fault-free result", what, out.err, len(out.rows))
 					return faults, nestedFaults, false
+				}
+				// the fault was transient: the same call on the same handle
+				// must now give the complete result, or fail again; it must
+				// not succeed with anything else (e.g. served from a cache
+				// that remembers the half-read state)
+				if again != nil {
+					if again.pan != nil {
+						r.Violation(t, spec, "fault:panic-afterwards", "%s: the same call again on the same handle panics: %v", what, again.pan)
+						return faults, nestedFaults, false
+					}
+					if again.err == nil && !(len(again.rows) == len(base.rows) && isPrefix(again.rows, base.rows)) {
+						r.Violation(t, spec, "fault:wrong-result-afterwards", "%s: the same call again on the same handle (no fault now) succeeds with %d rows, the fault-free result has %d", what, len(again.rows), len(base.rows))
+						return faults, nestedFaults, false
+					}
+					if again.err != nil && !isPrefix(again.rows, base.rows) {
+						r.Violation(t, spec, "fault:not-a-prefix-afterwards", "%s: the same call again fails (%v) with rows that are not a prefix", what, again.err)
+						return faults, nestedFaults, false
+					}
 				}
 			}
 		}
